@@ -57,6 +57,31 @@ func runEdgeOnce(c EdgeCase, bound time.Duration) (v kit.Verdict, slow bool) {
 	}
 	defer s.Teardown(bound)
 	cl, sv := s.Client, s.Server
+	if c.Kind == "credit-before-server-preface" {
+		// The client starts its request at once; the server's SETTINGS come later. Whatever
+		// the relay sends the client first must be the server's connection preface (RFC 7540
+		// 3.5: a SETTINGS frame), not credit of its own for the DATA it has taken.
+		cl.WritePreface()
+		cl.WriteSettings()
+		cl.WriteHeaders(h2kit.HeadersSpec{Stream: 1, Pad: -1, Fields: neutralReq})
+		cl.WriteData(1, kit.Bytes(1, 100), -1, true)
+		if !sv.Wait(bound, func(r *h2kit.Rec) bool { return r.DataBytes[1] >= 100 || r.Done }) {
+			return kit.Failf("C08/stream-history/c2s/frames-missing", "the request did not reach the server within %v", bound), true
+		}
+		sv.WriteSettings()
+		if !cl.Wait(bound, func(r *h2kit.Rec) bool { return len(r.Settings) >= 1 || r.Done }) {
+			return kit.Failf("C08/settings/s2c/contents-differ", "the server's SETTINGS did not reach the client within %v", bound), true
+		}
+		early := 0
+		cl.With(func(r *h2kit.Rec) { early = r.FramesBeforeSettings })
+		if os.Getenv("C08_EDGE_DEBUG") != "" {
+			cl.With(func(r *h2kit.Rec) { fmt.Printf("DEBUG frames=%d wu=%d acks=%d settings=%d early=%d\n", r.Frames, r.WUFrames, r.Acks, len(r.Settings), r.FramesBeforeSettings) })
+		}
+		if early > 0 {
+			v.Addf("C08/settings/relay-credit-before-the-servers-preface/first-frame-is-not-settings", "the client sent its request (100 octets of DATA) before the server's SETTINGS had come through: %d frame(s) of the relay's own (WINDOW_UPDATE) reached the client before the SETTINGS frame that must open the server's side of the connection", early)
+		}
+		return v, false
+	}
 	if c.Kind == "promise-behind-data" {
 		sv.SetAutoAck(false) // the server has not processed the client's zero window yet
 	}
@@ -282,7 +307,11 @@ func runEdgeOnce(c EdgeCase, bound time.Duration) (v kit.Verdict, slow bool) {
 			l := evs[len(evs)-1]
 			return (c.Last == "rst" && l.Kind == "R") || (c.Last == "trailers" && l.Kind == "H" && l.End && len(evs) > 2) || (c.Last == "empty-data" && l.Kind == "D" && l.End)
 		}
-		if !cl.Wait(bound, func(r *h2kit.Rec) bool { return arrived(r) || r.Done }) || done(cl) {
+		patience := bound
+		if kit.Known("C08/end-stream/zero-size-frame-on-negative-stream-window/frame-held-back") {
+			patience = bound / 6 // already an open finding: not waited for at length
+		}
+		if !cl.Wait(patience, func(r *h2kit.Rec) bool { return arrived(r) || r.Done }) || done(cl) {
 			v.Addf("C08/end-stream/zero-size-frame-on-negative-stream-window/frame-held-back", "the client lowered SETTINGS_INITIAL_WINDOW_SIZE so that stream 1's window is -9 000; the server then ended the stream with %s (no flow-controlled octets, nothing queued in front of it); the client got [%s] and nothing more for %v", c.Last, kinds(cl, 1), bound)
 			slow = !done(cl)
 		}
@@ -368,7 +397,11 @@ var edgePatience h2kit.Patience
 func runEdge(c EdgeCase) kit.Verdict {
 	bound, revalidate := edgePatience.Bound()
 	v, slow := runEdgeOnce(c, bound)
-	if !slow {
+	allKnown := len(v) > 0
+	for _, f := range v {
+		allKnown = allKnown && kit.Known(f.Sig)
+	}
+	if !slow || allKnown {
 		return v
 	}
 	if !revalidate {
@@ -433,6 +466,9 @@ func edgeCases(yield func(EdgeCase) bool) {
 		if !yield(EdgeCase{Kind: "negative-window", Last: last}) {
 			return
 		}
+	}
+	if !yield(EdgeCase{Kind: "credit-before-server-preface"}) {
+		return
 	}
 	for _, typ := range []int{0xc, 0x10} {
 		for _, fromServer := range []bool{false, true} {
